@@ -766,6 +766,30 @@ theorem flattened_spec (fuel : Nat) (ns : Ns) (fl : List Name) (parent : PDict) 
   mem_flattened fuel ns fl parent k v
 
 open Hs.NsA in
+/-- the same in terms of the graph of the `is` lists, for every defs grid: a value of the parent is flattened into the
+prototypes iff it is not Null and its tag is a def that is, or inherits from, one of the defined `childrenFlatten`
+symbols -/
+theorem flattened_graph_spec (rows : List Row) (fuel : Nat) (hf : fuelFor (make rows).defs ≤ fuel)
+    (fl : List Name) (parent : PDict) (k : Name) (v : Nat) :
+    (k, v) ∈ flattened fuel (make rows) fl parent ↔
+      (k, v) ∈ parent ∧ v ≠ 0 ∧ ∃ sym, sym ∈ fl ∧ defined (make rows).defs k = true ∧
+        defined (make rows).defs sym = true ∧ ReflTransGen (Edge (make rows).defs) k sym := by
+  rw [flattened_spec]
+  have hb : ∀ sym, fitsB fuel (make rows) k sym = true ↔
+      (defined (make rows).defs k = true ∧ defined (make rows).defs sym = true ∧
+        ReflTransGen (Edge (make rows).defs) k sym) := by
+    intro sym
+    obtain ⟨w, hw, hw'⟩ := fits_spec rows fuel hf k sym
+    unfold fitsB
+    rw [hw]
+    exact hw'
+  constructor
+  · rintro ⟨h1, h2, sym, h3, h4⟩
+    exact ⟨h1, h2, sym, h3, (hb sym).mp h4⟩
+  · rintro ⟨h1, h2, sym, h3, h4⟩
+    exact ⟨h1, h2, sym, h3, (hb sym).mpr h4⟩
+
+open Hs.NsA in
 /-- a tag of a prototype: the flattened value if there is one, the child's own otherwise -/
 theorem proto_tag (f c : PDict) (k : Name) :
     pget (mergeInto f c) k = (pget f k).or (pget c k) :=
